@@ -8,11 +8,14 @@ WithRs(c, rs) == [c EXCEPT !.rs = rs]
 g_RS == {{}, {1}, {2}, {3}, {4}, {5}, {6}, {2, 3}, {2, 4}, {3, 5}, {3, 6}, {4, 7}, {5, 6}, {6, 7}}
 WithEp(c, ep) == [c EXCEPT !.ep = ep]
 P(a, b, c) == [v1 |-> a, v2 |-> b, v3 |-> c]
+P5 == [v1 |-> 1, v2 |-> 1, v3 |-> 1, v4 |-> 1, v5 |-> 1]
 \* quick: one feeder per configuration; (maxNonce, interval) shapes (2,4) and (1,2); two power vectors
-c_CFGS == { Cfg(P(1,1,2), 2, 2, 2, [f1 |-> F("t1", 1, 4, 2, 0), f2 |-> OFF]),
-            Cfg(P(1,2,3), 1, 2, 2, [f1 |-> F("t1", 1, 2, 2, 0), f2 |-> OFF]) }
+\* total powers 5 (= 2 mod 3) and 4 (= 1 mod 3); total = 0 mod 3 is in the thorough set
+c_CFGS == { Cfg(P(1,2,2), 2, 2, 2, [f1 |-> F("t1", 1, 4, 2, 0), f2 |-> OFF]),
+            Cfg(P(1,1,2), 1, 2, 2, [f1 |-> F("t1", 1, 2, 2, 0), f2 |-> OFF]) }
 \* thorough: three shapes incl. maxDetId = 1 and the (2,2,5) power split
 t_CFGS == c_CFGS \cup { Cfg(P(2,2,5), 2, 1, 2, [f1 |-> F("t1", 1, 5, 2, 0), f2 |-> OFF]),
+                        Cfg(P(1,2,3), 2, 2, 2, [f1 |-> F("t1", 1, 4, 2, 0), f2 |-> OFF]),
                         \* 3-block dogfood epoch: validator-set change (force seal) at EndBlock 4, inside the window of the round based at 3
                         WithEp(Cfg(P(1,1,2), 2, 2, 2, [f1 |-> F("t1", 3, 4, 2, 0), f2 |-> OFF]), 3) }
 \* params update + restart while a message is cached (agc.params nil in recache)
@@ -22,7 +25,7 @@ c_PSS == { <<E("1", 10)>>, <<E("1", 20)>>, <<E("1", 10), E("2", 20)>> }
 t_PSS == c_PSS \cup { <<E("2", 20)>> }
 c_PSS2 == { <<E("1", 10)>> }
 \* generation: two feeders, all four power vectors
-g_CFGS0 == { Cfg(pw, 2, 2, 3, [f1 |-> F("t1", 1, 4, 2, 0), f2 |-> F("t2", 2, 5, 1, 0)]) : pw \in {P(1,1,1), P(1,1,2), P(1,2,3), P(2,2,5)} } \cup
+g_CFGS0 == { Cfg(pw, 2, 2, 3, [f1 |-> F("t1", 1, 4, 2, 0), f2 |-> F("t2", 2, 5, 1, 0)]) : pw \in {P(1,1,1), P(1,1,2), P(1,2,2), P(1,1,3), P(1,2,3), P(2,3,3), P(2,2,5), P5} } \cup
           { Cfg(pw, 1, 2, 3, [f1 |-> F("t1", 2, 2, 2, 0), f2 |-> F("t2", 1, 3, 1, 0)]) : pw \in {P(1,1,1), P(1,2,3)} } \cup
           { Cfg(pw, 2, 1, 2, [f1 |-> F("t1", 1, 5, 2, 0), f2 |-> F("t2", 2, 4, 1, 4)]) : pw \in {P(1,1,2), P(2,2,5)} } \cup
           \* MaxNonce above the package default 3 (replay window, lead L26)
